@@ -136,6 +136,42 @@ def serializer_contracts():
         property_clauses={"serialised_once_and_registered_once": "C09,C18", "call:ResultRegistrar.register_complete[counted].requires0": "C09"},
         doc={"serialised_once_and_registered_once": "C09: every member's files and manifest are written by save(); the manifest's fingerprints are taken after the files exist "
                                                     "(requires-at-call obligation of register_complete)"}))
+    # ---- ResultsManager.complete_run: one run-manifest completion, for this run directory, these results
+    RGS = "csvpath/managers/results/results_registrar.py"
+    CF["ResultsRegistrar"] = {**CF.get("ResultsRegistrar", {}), "run_dir": "val", "pathsname": "val", "csvpaths": "obj:CsvPaths", "g_manifest_dict": "dict[str,val]"}
+    CF["CsvPaths"].update({"g_run_completions": "int", "g_completed_run_home": "val", "g_completed_pathsname": "val", "g_completed_results": "val"})
+    CF["ResultsMetadata"] = {"run_home": "val", "named_paths_name": "val", "named_results_name": "val", "archive_name": "val", "named_file_fingerprint": "val",
+                             "named_file_fingerprint_on_file": "val", "named_file_name": "val", "named_file_path": "val"}
+    iface(f"{RGS}::ResultsRegistrar.__init__", {"csvpaths": "obj:CsvPaths", "run_dir": "val", "pathsname": "val", "results": "val"},
+          modifies=["self.csvpaths", "self.run_dir", "self.pathsname", "self.results"],
+          ensures={"c": "self.csvpaths is csvpaths", "d": "same(self.run_dir, run_dir)", "p": "same(self.pathsname, pathsname)", "r": "same(self.results, results)"},
+          why="ResultsRegistrar(csvpaths, run_dir, pathsname, results) remembers its arguments")
+    cs[-1].class_fields = {**CF, "ResultsRegistrar": {**CF["ResultsRegistrar"], "results": "val"}}
+    iface(f"{RGS}::ResultsRegistrar.manifest", {}, returns="expr:self.g_manifest_dict", ensures={"m": "result is self.g_manifest_dict"},
+          why="ResultsRegistrar.manifest reads the run manifest written at the start of the run (json.load)")
+    cs[-1].variant = "as_dict"
+    cs.append(Contract(target=f"{RGS}::ResultsRegistrar.register_complete", interface=True, variant="logged", types={"mdata": "obj:ResultsMetadata"},
+                       modifies=["self.csvpaths.g_run_completions", "self.csvpaths.g_completed_run_home", "self.csvpaths.g_completed_pathsname", "self.csvpaths.g_completed_results"],
+                       ensures={"logged": "self.csvpaths.g_run_completions == old(self.csvpaths.g_run_completions) + 1 and same(self.csvpaths.g_completed_run_home, mdata.run_home) and "
+                                          "same(self.csvpaths.g_completed_pathsname, mdata.named_paths_name) and same(self.csvpaths.g_completed_results, self.results)"},
+                       returns="none", class_fields={**CF, "ResultsRegistrar": {**CF["ResultsRegistrar"], "results": "val"}},
+                       assumptions=["ResultsRegistrar.register_complete is under its own contract (status / all_valid / all_completed / error_count of the members)"]))
+    for nm in ("set_time",):
+        iface(f"{MD}::Metadata.{nm}", {}, why="Metadata.set_time stamps the metadata with the current time")
+    iface(f"{MD}::Metadata.time_string.setter", {"s": "val"}, why="time_string setter parses an ISO time")
+    iface(f"{MD}::Metadata.uuid_string.setter", {"u": "val"}, why="uuid_string setter parses a uuid")
+    iface("csvpath/util/config.py::Config.archive_name", {}, returns="val", why="Config.archive_name is the last segment of the archive path")
+    cs.append(Contract(
+        target=f"{RM}::ResultsManager.complete_run", types={"run_dir": "val", "pathsname": "val", "results": "val", "self._csvpaths": "obj:CsvPaths"},
+        modifies=["self._csvpaths.g_run_completions", "self._csvpaths.g_completed_run_home", "self._csvpaths.g_completed_pathsname", "self._csvpaths.g_completed_results"],
+        raises={"KeyError": {"when": "True", "exact": False}},
+        ensures={"completes_this_run_once": "self._csvpaths.g_run_completions == old(self._csvpaths.g_run_completions) + 1 and same(self._csvpaths.g_completed_run_home, run_dir) and "
+                                            "same(self._csvpaths.g_completed_pathsname, pathsname)",
+                 "over_exactly_the_results_handed_in": "same(self._csvpaths.g_completed_results, results)"},
+        stub_new=["ResultsMetadata"], callee_variants={"ResultsRegistrar.register_complete": "logged", "ResultsRegistrar.manifest": "as_dict"},
+        class_fields={**CF, "ResultsRegistrar": {**CF["ResultsRegistrar"], "results": "val"}}, macros=MACROS, returns="none", native={"skip": True},
+        property_clauses={"completes_this_run_once": "C09,C10", "over_exactly_the_results_handed_in": "C09"},
+        doc={"over_exactly_the_results_handed_in": "C09: 'the run manifest's all_valid / all_completed / error_count are those of the members of this run'"}))
     return cs
 
 
